@@ -114,7 +114,8 @@ func (self *StreamDecoder) Decode(val interface{}) (err error) {
 		// must copy string here for safety
 		self.Decoder.Reset(string(self.buf[s:e]))
 		err = self.Decoder.Decode(val)
-		if err == nil && self.Decoder.Pos() != e-s {
+		// (ValidateString may have replaced the text by a repaired, longer copy: measure that one)
+		if err == nil && self.Decoder.Pos() != len(self.Decoder.s) {
 			// the framed text is more than one value (e.g. 01)
 			err = SyntaxError{Pos: self.Decoder.Pos(), Src: self.s, Code: types.ERR_INVALID_CHAR}
 		}
